@@ -1,9 +1,12 @@
 package main
 
 import (
+	"bytes"
 	"encoding/hex"
 	"math/big"
 	"os"
+	"sort"
+	"strings"
 
 	"verif/mon"
 	"verif/ref/refec"
@@ -170,4 +173,67 @@ func b2s(b bool) string {
 		return "accept"
 	}
 	return "reject"
+}
+
+// inputGuard records byte copies of everything handed to a btcd call and checks afterwards
+// that the callee left its caller's data alone (no hidden mutation / aliasing of inputs).
+type inputGuard struct{ items []guardItem }
+
+type guardItem struct {
+	name   string
+	live   func() []byte
+	before []byte
+}
+
+func (g *inputGuard) add(name string, live func() []byte) {
+	g.items = append(g.items, guardItem{name, live, append([]byte{}, live()...)})
+}
+
+// bytes guards a caller-owned byte slice (the very backing array that is passed to btcd).
+func (g *inputGuard) bytes(name string, b []byte) *inputGuard {
+	g.add(name, func() []byte { return b })
+	return g
+}
+
+func (g *inputGuard) priv(name string, p *btcec.PrivateKey) *inputGuard {
+	g.add(name, func() []byte { return p.Serialize() })
+	return g
+}
+
+func (g *inputGuard) pub(name string, p *btcec.PublicKey) *inputGuard {
+	g.add(name, func() []byte { return p.SerializeUncompressed() })
+	return g
+}
+
+// pubs guards a key list: every key object and the list's content; its order too when ordered.
+func (g *inputGuard) pubs(name string, ps []*btcec.PublicKey, ordered bool) *inputGuard {
+	g.add(name, func() []byte {
+		enc := make([]string, len(ps))
+		for i, p := range ps {
+			enc[i] = string(p.SerializeUncompressed())
+		}
+		if !ordered {
+			sort.Strings(enc)
+		}
+		return []byte(strings.Join(enc, ""))
+	})
+	return g
+}
+
+// check reports any guarded input whose bytes changed; site names the btcd call.
+func (g *inputGuard) check(k *mon.Case, site string) {
+	for _, it := range g.items {
+		if now := it.live(); !bytes.Equal(now, it.before) {
+			k.Failf("aliasing:"+site+":caller-input-modified:"+it.name, "before=%x after=%x", it.before, now)
+		}
+	}
+	k.Count("aliasing.guarded_calls", 1)
+}
+
+// scramble overwrites a caller-owned buffer after a parser returned: a parsed object that
+// retained the caller's slice would change with it.
+func scramble(b []byte) {
+	for i := range b {
+		b[i] ^= 0xa5
+	}
 }
